@@ -23,7 +23,10 @@ vars == <<kind, c, emitted>>
 AllBytes == 0..255
 UnknownNames == {"", "sigmoidplainactivation", "SIGMOIDPLAINACTIVATION", "SigmoidPlain", "SigmoidPlainActivation ",
                  " TanhActivation", "tanhactivation", "Tanh", "MultiplyModule", "maxmoduleactivation", "HIDN", "NEURON",
-                 "UnknownActivation", "0", "1", "StepActivation1"}
+                 "UnknownActivation", "0", "1", "StepActivation1",
+                 \* short names other NEAT libraries use, and lower-case stems of the registered names
+                 "sigmoid", "tanh", "sin", "sine", "gauss", "gaussian", "relu", "identity", "linear", "clamped", "abs", "step", "sign",
+                 "null", "product", "multiply", "sum", "max", "min", "mean", "Sigmoid", "Gaussian", "Linear", "Max", "Min", "Multiply"}
 QuickBig == (4..70) \cup { 70 + 19 * k : k \in 1..48 } \cup {996}
 QuickTiny == ((-70)..(-7)) \cup { -70 - 21 * k : k \in 1..47 } \cup {-1074, -1023, -1022}
 ThoroughBig == 4..996
@@ -73,6 +76,9 @@ NX == Len(XSeq)
 ASSUME \A i \in 1..(NX - 1) : DLt(XSeq[i], XSeq[i + 1])
 
 Vectors == UNION { [1..n -> Vals] : n \in 1..MaxLen }
+AltScales == {300, 600, -600}
+OddCount(v) == (Len(v) + 1) \div 2
+MultiplyAlt(v, s) == D(ProdFold(v, Len(v)), s * (OddCount(v) - (Len(v) - OddCount(v))))
 ScalesOf(op) == IF op = "MultiplyModuleActivation" THEN ProdScales ELSE Scales
 ModuleResult(op, v, s) ==
     CASE op = "MultiplyModuleActivation" -> MultiplyModule(v, s)
@@ -85,6 +91,9 @@ Init == /\ emitted = FALSE
            \/ kind = "name" /\ c \in RegisteredNames \cup ProbeNames
            \/ kind = "scalar" /\ c \in { p \in [fn : ExactNames, xi : 1..NX] : ExactDomain(p.fn, XSeq[p.xi]) }
            \/ kind = "module" /\ \E op \in ModuleNames : c \in [op : {op}, v : Vectors, s : ScalesOf(op)]
+           \* members of very different magnitude in ONE vector: odd positions scaled by 2^s, even positions by 2^-s (every
+           \* left-to-right prefix of the product is an ordinary number; partial products in another order are not)
+           \/ kind = "modalt" /\ c \in [op : {"MultiplyModuleActivation"}, v : { v \in Vectors : Len(v) >= 2 }, s : AltScales]
            \/ kind = "factory" /\ \E g \in ExtraRegs : c = [g |-> g, s |-> FacInit, pc |-> 0]
 
 CaseOf ==
@@ -100,6 +109,9 @@ CaseOf ==
       [] kind = "module" ->
             LET y == ModuleResult(c.op, c.v, c.s) IN
             [kind |-> kind, op |-> c.op, t |-> TypeOfName(c.op), v |-> c.v, s |-> c.s, yn |-> y.n, ye |-> y.e]
+      [] kind = "modalt" ->
+            LET y == MultiplyAlt(c.v, c.s) IN
+            [kind |-> "module", alt |-> TRUE, op |-> c.op, t |-> TypeOfName(c.op), v |-> c.v, s |-> c.s, yn |-> y.n, ye |-> y.e]
       [] kind = "factory" ->
             [kind |-> kind, g |-> c.g, untouched |-> Obs(FacView(c.s, 1)), private |-> Obs(FacView(c.s, Private))]
 
@@ -151,6 +163,7 @@ ScalarShape == kind = "scalar" =>
     /\ c.fn = "LinearAbsActivation" => (DEq(y, x) \/ DEq(y, mx))
 
 (* ---- C18, module reducers ---- *)
+ModuleAltDefinition == kind = "modalt" => MultiplyAlt(c.v, c.s) = D(ProdDef(c.v), c.s * (OddCount(c.v) - (Len(c.v) - OddCount(c.v))))
 ModuleDefinition == kind = "module" =>
     LET y == ModuleResult(c.op, c.v, c.s) IN
     CASE c.op = "MultiplyModuleActivation" -> y = D(ProdDef(c.v), c.s * Len(c.v))
